@@ -47,6 +47,10 @@ var specs = []Spec{
 	{"x/masterchef/keeper", "Keeper.CollectGasFees", "collectGasFees", true, false, ""},
 	{"x/masterchef/keeper", "Keeper.CollectPerpRevenue", "collectPerpRevenue", true, false, ""},
 	{"x/stablestake/keeper", "Keeper.InterestRateComputation", "interestRateComputation", false, false, ""},
+	{"x/perpetual/types", "CalcFundingRate", "calcFundingRate", false, false, ""},
+	{"x/stablestake/types", "Debt.GetTotalLiablities", "debtTotalLiabilities", false, false, ""},
+	{"x/amm/keeper", "Keeper.InternalSwapExactAmountIn", "swapExactInGuards", false, true, ""},
+	{"x/amm/keeper", "Keeper.InternalSwapExactAmountOut", "swapExactOutGuards", false, true, ""},
 }
 
 // externs: callees that are loops; their hand-written Lean definitions are tied to the code by the differential harness only
@@ -62,6 +66,7 @@ var errorsMap = map[string]string{
 	"ErrInvalidMathApprox":   ".invalidMathApprox",
 	"ErrTooMuchSwapFee":      ".tooMuchSwapFee",
 	"ErrLimitMaxAmount":      ".limitMax",
+	"ErrLimitMinAmount":      ".limitMax",
 	"ErrTooManyTokensOut":    ".tooManySharesOut",
 	"ErrZeroCustodyAmount":   ".badArgs",
 	"ErrInvalidLeverage":     ".badArgs",
